@@ -1361,3 +1361,12 @@ def stats_extra(xpid, case, out, acc):
     for op, o in zip(case, out):
         res = "err" if ("err" in o[:12] or o.startswith(("none", "dropped"))) else "ok"
         bump(acc, f"extra:{xpid}:{op.split()[0]}:{res}")
+
+# ---------------------------------------------------------------- real nodes through the public API (engine: extra_cases)
+# `Litep2p::new` (src/lib.rs), `ConfigBuilder` (src/config.rs) and the protocol / transport `Config` builders hand every
+# constructed object its configuration; the `node` area (checks/node.py) builds real nodes, compares what the CONSTRUCTED
+# objects hold (and what a connection's `ProtocolSet` answers per main / fallback name) with the wiring model
+# (Model/Node/Wiring.lean) and judges this property's real-time scenarios (frames above the configured limit on substreams
+# negotiated under a FALLBACK name are refused) at node level.
+from . import node as _node  # noqa: E402
+_node.install(globals())
